@@ -36,6 +36,32 @@ Proof.
   apply nth_error_Some. congruence.
 Qed.
 
+(* the tie rule made explicit: among the sources at minimal distance the one with the lowest index is taken *)
+Lemma c12_nn_tie_rule : forall keys, keys <> [] ->
+  exists d, nth_error keys (c12_nn_index keys) = Some d /\
+    forall j dj, nth_error keys j = Some dj -> d < dj \/ (d = dj /\ (c12_nn_index keys <= j)%nat).
+Proof.
+  intros keys Hne. destruct (c12_knn1 keys Hne) as [d [i E]].
+  destruct (c12_nn_index_spec keys Hne) as [d' [Hd' _]].
+  assert (Hi : c12_nn_index keys = i) by (unfold c12_nn_index; rewrite E; reflexivity).
+  rewrite Hi in *. clear Hi. exists d'. split; auto.
+  pose proof (c11_sort_enum_sorted2 keys 0%nat) as Hs. pose proof (c11_sort_perm (c11_enum 0 keys)) as Hp.
+  unfold c11_knn in E. destruct (c11_sort (c11_enum 0 keys)) as [|x rest] eqn:Es; [discriminate|].
+  cbn in E. injection E as Ex. subst x. inversion Hs as [|? ? _ Hf]. subst. rewrite Forall_forall in Hf.
+  assert (Hdd : d = d').
+  { destruct (c11_knn_spec keys 1) as [_ [_ [Hkey _]]]. unfold c11_knn in Hkey. rewrite Es in Hkey. cbn in Hkey.
+    specialize (Hkey (d, i) (or_introl eq_refl)). cbn in Hkey. congruence. }
+  subst d'. intros j dj Hj.
+  assert (Hin : In (dj, j) ((d, i) :: rest)).
+  { apply (Permutation_in _ (Permutation_sym Hp)). apply c11_enum_In. split; [lia|].
+    replace (j - 0)%nat with j by lia. exact Hj. }
+  destruct Hin as [Heq|Hin]; [inversion Heq; subst; right; split; [reflexivity|lia]|].
+  specialize (Hf _ Hin). unfold c11_le2 in Hf. cbn in Hf. destruct Hf as [H|[H1 H2]]; [left; lia | right; split; lia].
+Qed.
+
+Example c12_nn_tie_rule_nonvacuous : c12_nn_index [4; 2; 9; 2] = 1%nat.
+Proof. reflexivity. Qed.
+
 (* every leading index is treated alike: row l of the result is the gather of row l of the data *)
 Lemma c12_nn_spec : forall nn nf ne t data res, c12_nn nn nf ne t data = Some res ->
   exists r0 kd, hd_error data = Some r0 /\
@@ -263,6 +289,53 @@ Proof.
   - apply Qle_shift_div_l; auto.
   - apply Qle_shift_div_r; auto.
 Qed.
+
+(* the value is linear in the data *)
+Lemma c12_sum_linear : forall (A : Type) (v1 v2 v3 w : A -> Q) (a b : Q) (l : list A),
+  (forall x, v3 x == a * v1 x + b * v2 x) ->
+  c12_qsum (map (fun x => v3 x * w x) l)
+  == a * c12_qsum (map (fun x => v1 x * w x) l) + b * c12_qsum (map (fun x => v2 x * w x) l).
+Proof.
+  intros A v1 v2 v3 w a b l H. induction l as [|x l IH]; cbn [map c12_qsum]; [ring|].
+  rewrite IH, (H x). ring.
+Qed.
+
+Lemma c12_idw_linear : forall scale p eps k keys r1 r2 r3 a b,
+  (forall j, nth j r3 0 == a * nth j r1 0 + b * nth j r2 0) ->
+  c12_idw_point scale p eps k r3 keys
+  == a * c12_idw_point scale p eps k r1 keys + b * c12_idw_point scale p eps k r2 keys.
+Proof.
+  intros scale p eps k keys r1 r2 r3 a b H. rewrite !c12_idw_point_fast_eq. unfold c12_idw_point_fast, Qdiv.
+  rewrite (c12_sum_linear _ (fun x => nth (snd x) r1 0) (fun x => nth (snd x) r2 0) (fun x => nth (snd x) r3 0)
+             (fun x => c12_weight scale p eps (fst x)) a b).
+  - ring.
+  - intros x. apply H.
+Qed.
+
+Example c12_idw_linear_nonvacuous :
+  c12_idw_point 1 1 (1 # 1000000) 2 [2#1; 5#1; 8#1] [4; 1; 3]%Z
+  == (2#1) * c12_idw_point 1 1 (1 # 1000000) 2 [1#1; 2#1; 3#1] [4; 1; 3]%Z
+     + (1#1) * c12_idw_point 1 1 (1 # 1000000) 2 [0#1; 1#1; 2#1] [4; 1; 3]%Z.
+Proof. vm_compute. reflexivity. Qed.
+
+(* coincident points (d = 0): no division by zero - the weight is 1/eps for a positive power and
+   1/(1+eps) for power 0 (0^0 = 1, as in numpy), and it is the largest weight there is *)
+Lemma c12_weight_at_zero : forall scale p eps, c12_weight scale (S p) eps 0%Z == / eps.
+Proof.
+  intros. unfold c12_weight, c12_dist. cbn [c12_qpow]. apply Qinv_comp.
+  assert (E : (0 # scale) * c12_qpow (0 # scale) p == 0) by (unfold Qeq; simpl; reflexivity).
+  rewrite E. ring.
+Qed.
+
+Lemma c12_weight_power_zero : forall scale eps d, c12_weight scale 0 eps d == / (1 + eps).
+Proof. intros. unfold c12_weight. cbn [c12_qpow]. reflexivity. Qed.
+
+Lemma c12_weight_max_at_zero : forall scale p eps d, 0 < eps -> (0 <= d)%Z ->
+  c12_weight scale p eps d <= c12_weight scale p eps 0%Z.
+Proof. intros. apply c12_weight_monotone; auto. lia. Qed.
+
+Example c12_weight_at_zero_nonvacuous : c12_weight 1024 2 (1 # 1000000) 0%Z == 1000000 # 1.
+Proof. vm_compute. reflexivity. Qed.
 
 (* constant fields are reproduced *)
 Lemma c12_idw_const : forall scale p eps k row keys c,
